@@ -175,6 +175,41 @@ func genLog(r *fw.Rand, tier string) []string {
 	return ops
 }
 
+// genOwnerLog: the owner bookkeeping of replicated shards: with n nodes and a replication
+// factor that does not divide n the round-robin assignment wraps, so owner lists are not
+// ascending ({1,2} {3,1} {2,3}); owners are then copied (also to nodes that already own the
+// shard, to deleted and to unknown nodes), removed, and nodes deleted.
+func genOwnerLog(r *fw.Rand) []string {
+	var ops []string
+	add := func(op string) { ops = append(ops, op, "dump") }
+	nodes := 3 + r.Intn(3)
+	for i := 1; i <= nodes; i++ {
+		add(fmt.Sprintf("createdatanode h%d t%d", i, i))
+	}
+	rf := 2 + r.Intn(nodes-2)
+	add(fmt.Sprintf("createdb db0 rp0 %d %d %d", rf, durPool[0], sgdPool[0]))
+	shards := 0
+	for i, k := 0, 1+r.Intn(3); i < k; i++ {
+		add(fmt.Sprintf("createsg db0 rp0 %d", genTS(r)))
+		shards += nodes
+	}
+	age := func() string { return []string{"old", "recent"}[r.Intn(2)] }
+	for i, k := 0, 8+r.Intn(20); i < k; i++ {
+		switch r.Intn(8) {
+		case 0, 1, 2, 3:
+			add(fmt.Sprintf("copyowner %d %d", 1+r.Intn(shards+1), 1+r.Intn(nodes+1)))
+		case 4, 5:
+			add(fmt.Sprintf("removeowner %d %d %s", 1+r.Intn(shards+1), 1+r.Intn(nodes+1), age()))
+		case 6:
+			add(fmt.Sprintf("deletedatanode %d %s", 1+r.Intn(nodes), age()))
+		default:
+			nodes++
+			add(fmt.Sprintf("createdatanode h%d t%d", nodes, nodes))
+		}
+	}
+	return ops
+}
+
 func (Prop) Generate(r *fw.Rand, tier string) []fw.Case {
 	n := 150
 	if tier == "thorough" {
@@ -188,6 +223,9 @@ func (Prop) Generate(r *fw.Rand, tier string) []fw.Case {
 		}
 		ops := append([]string{"reset " + auto}, genLog(r.Fork(), tier)...)
 		cases = append(cases, fw.Case{Ops: ops})
+		if i%10 == 0 {
+			cases = append(cases, fw.Case{Ops: append([]string{"reset " + auto}, genOwnerLog(r.Fork())...), Tags: []string{"owners"}})
+		}
 	}
 	return cases
 }
@@ -443,6 +481,22 @@ func (Prop) Oracle(c fw.Case, implOut []string) fw.Verdict {
 			seenSG[id] = true
 			for _, s := range g.Shards {
 				seenShard[s.ID] = true
+			}
+		}
+		// no shard is owned by a node that is not (or no longer) a data node
+		{
+			isNode := map[uint64]bool{}
+			for _, n := range cur.DataNodes {
+				isNode[n.ID] = true
+			}
+			for _, g := range allGroups(cur) {
+				for _, s := range g.Shards {
+					for _, o := range s.Owners {
+						if !isNode[o.NodeID] {
+							return fw.Verdict{OK: false, Why: fmt.Sprintf("after %q shard %d is owned by %d, which is not a data node", op, s.ID, o.NodeID), Signature: "shard owned by a node that is not a data node (" + f[0] + ")"}
+						}
+					}
+				}
 			}
 		}
 		// a removed node owns nothing
